@@ -137,3 +137,13 @@ Definition check_conc (small : bool) (c : conc_case) : list nat :=
    (if existsb (fun e => o_r (e_o e) =? 2) l then [6%nat] else []))%list.
 Definition check_conc_small := check_conc true.
 Definition check_conc_big := check_conc false.
+
+(* ---------------------------------------------------------------- request-level VMs under concurrency
+   each goroutine that runs on its own TempVM of the shared base must get exactly what the sequential TempVM
+   model of C12 gives for that request run ALONE (the other goroutines use disjoint names on the base) *)
+Fixpoint cp_of12 (l : list (name * cpent)) (n : name) : option cpent :=
+  match l with [] => None | (k, e) :: r => if String.eqb k n then Some e else cp_of12 r n end.
+Definition solo_case := (list (name * cpent) * list op * list obs)%type.
+Definition check_solo (c : solo_case) : list nat :=
+  let '(cp, ops, os) := c in
+  if all2 res_ok (tl (results (cp_of12 cp) world0 (ONewTemp :: ops))) os then [] else [10%nat].
